@@ -82,6 +82,35 @@ def r03_2(chk, P, rule='R03.2'):
                             if pol and cn['k'] == 'bin' and cn['op'] in ('<', '<=', '>', '>=') and \
                                     F.ex[F.strip_casts(cn['c'][0])].get('decl', {}).get('id') == l['decl'].get('id') and F.pos[cnd][0] in body:
                                 clamped[l['decl']['id']] = bv
+            # ... or in a helper that receives the counter's address (`_seek_chunk_back(vf,&begin)`)
+            for cc in F.calls():
+                if F.pos[cc][0] not in body or 'd' not in F.ex[cc]['callee']:
+                    continue
+                G = P.get(F.ex[cc]['callee']['d'], F)
+                if G is None or G.entry is None:
+                    continue
+                for ai, a in enumerate(F.ex[cc].get('c', [])):
+                    an = F.ex[F.strip_casts(a)]
+                    if not (an['k'] == 'un' and an['op'] == '&') or ai >= len(G.params):
+                        continue
+                    tv = F.ex[F.strip_casts(an['c'][0])]
+                    if tv['k'] != 'ref' or tv['decl'].get('kind') not in ('var', 'param') or tv['decl'].get('id') == xid:
+                        continue
+                    gp = G.params[ai]['id']
+
+                    def is_deref(q):
+                        qn = G.ex[G.strip_casts(q)]
+                        return qn['k'] == 'un' and qn['op'] == '*' and G.ex[G.strip_casts(qn['c'][0])].get('decl', {}).get('id') == gp
+                    for e in G.pos:
+                        nd = G.ex[e]
+                        if nd['k'] == 'assign' and nd['op'] == '=' and is_deref(nd['c'][0]):
+                            bv = _constv(G, nd['c'][1])
+                            if bv is None:
+                                continue
+                            for cnd, pol in common.controlling_conditions(G, e):
+                                cn = G.ex[G.strip_casts(cnd)]
+                                if pol and cn['k'] == 'bin' and cn['op'] in ('<', '<=', '>', '>=') and is_deref(cn['c'][0]):
+                                    clamped[tv['decl']['id']] = bv
             if not clamped:
                 continue
             A = absint.Analyzer(P, F)
